@@ -301,7 +301,7 @@ void run_C04(void) {
             sample("%" PRIu64 " lanes congruent at ell=%" PRIu64, lanes, ell);
             case_end(ell >= 1);
           }
-  for (unsigned t = 0; t < (th ? 3000u : 150u); t++) {
+  for (unsigned t = 0; t < (th ? 20000u : 600u); t++) {
     uint64_t h = mix64(t * 31337 + 11);
     uint64_t ell = h % 10001;
     int k = (int)((h >> 20) % N_KERNELS), avx2 = (int)((h >> 24) & 1);
@@ -319,7 +319,7 @@ void run_C04(void) {
   }
   for (unsigned k = 0; k <= 16; k++) {
     const uint64_t n = 1ull << k;
-    const unsigned reps = th ? (n <= 1024 ? 30 : (n <= 8192 ? 8 : 3)) : (n <= 256 ? 4 : (n <= 4096 ? 2 : 1));
+    const unsigned reps = th ? (n <= 1024 ? 150 : (n <= 8192 ? 30 : 10)) : (n <= 256 ? 8 : (n <= 4096 ? 4 : 2));
     for (size_t f = 0; f < ARRAY_LEN(FAMS); f++)
       for (unsigned rep = 0; rep < reps; rep++) traced_case(n, FAMS[f], rep);
   }
